@@ -67,6 +67,11 @@ type c01Inf struct {
 	w2Going  bool          // a probed W2 is under way (blocked on the lock or unexpectedly done)
 
 	pendingW2Done bool // a probed W2 completed on the implementation although the model says blocked
+
+	// flagReadEarly: the hand-over that was probed inside the unlock (blocked on eventBufLock) got the
+	// lock the moment the unlock returned and reached its yield point BEFORE the harness saw the unlock
+	// return (both channels ready, select picks either): kept parked for the w2 step that follows.
+	flagReadEarly *verifsched.Arrival
 }
 
 func newC01Inf(key string, types []string, jq, keepFull bool) *c01Inf {
@@ -98,13 +103,23 @@ func newC01Inf(key string, types []string, jq, keepFull bool) *c01Inf {
 	return inf
 }
 
+// c01Rel releases an arrival that may have been released already (after a `hang` the bookkeeping of
+// who is parked is not reliable any more).
+func c01Rel(a *verifsched.Arrival) {
+	defer func() { _ = recover() }()
+	a.Release()
+}
+
 func (inf *c01Inf) close() {
 	sched.Unsubscribe(inf.key)
+	if inf.flagReadEarly != nil {
+		c01Rel(inf.flagReadEarly)
+	}
 	if inf.wParked != nil {
-		inf.wParked.Release()
+		c01Rel(inf.wParked)
 	}
 	for _, a := range inf.rdParked {
-		a.Release()
+		c01Rel(a)
 	}
 	for {
 		select {
@@ -266,7 +281,11 @@ func (inf *c01Inf) w2(c *Case, probeE bool) string {
 		inf.wParked.Release()
 	}
 	inf.w2Going = false
-	a := inf.waitArrival("informer.watch.flagRead", c01Wait)
+	a := inf.flagReadEarly
+	inf.flagReadEarly = nil
+	if a == nil {
+		a = inf.waitArrival("informer.watch.flagRead", c01Wait)
+	}
 	if a == nil {
 		return "hang"
 	}
@@ -291,6 +310,10 @@ func (inf *c01Inf) probeE() string {
 	for {
 		select {
 		case a := <-inf.arrive:
+			if a.Name == "informer.watch.flagRead" && inf.w2Going && inf.flagReadEarly == nil {
+				inf.flagReadEarly = a // a probed hand-over, not the unlock: parked for its w2 step
+				continue
+			}
 			// it got the lock although the model says it is held: let it run to its end
 			a.Release()
 		case <-done:
@@ -342,6 +365,12 @@ func (inf *c01Inf) eProbing(c *Case) string {
 	for {
 		select {
 		case a := <-inf.arrive:
+			if a.Name == "informer.watch.flagRead" && inf.w2Going && inf.flagReadEarly == nil {
+				// the unlock has returned (the probed hand-over could take eventBufLock) but `done` has
+				// not been seen yet: keep the hand-over parked for the w2 step
+				inf.flagReadEarly = a
+				continue
+			}
 			if c != nil && strings.HasPrefix(a.Name, "informer.enable.") && inf.wEv != nil && !inf.pendingW2Done {
 				// at EVERY yield point of the unlock: the parked hand-over must still be blocked
 				if !inf.w2Going {
@@ -543,6 +572,10 @@ func (inf *c01Inf) finishE() string {
 	for {
 		select {
 		case a := <-inf.arrive:
+			if a.Name == "informer.watch.flagRead" && inf.w2Going && inf.flagReadEarly == nil {
+				inf.flagReadEarly = a // a probed hand-over got the lock first: parked for its w2 step
+				continue
+			}
 			a.Release() // the yield points inside the unlock itself
 			continue
 		case <-inf.eDone:
@@ -718,7 +751,7 @@ func c01GenScript(rng *Rng, nWatch int, allowKnown bool) (script []string, known
 }
 
 func runC01(r *Run) {
-	r.Rule = "one REAL resourceInformer per case, driven through the verifsched yield points: the harness plays the callback thread (W1 cache section, W2 hand-over), snapshot readers tagged sync/foreign (S1 copy, S2 reset) and the unlock E in a generated interleaving, plus probes that try a step the model says is blocked by eventBufLock (unlock or hand-over while a reader is between copy and reset; unlock in the middle of the hand-over). Watch histories over <=3 objects (create, modify with changed/identical projection, delete, re-create, re-delivered Added), event-type subsets, jqFilter on/off, keepFullObjectsInMemory on/off. Non-trivial: >=2 watch events fire and the schedule interleaves a reader or the unlock between two watch steps. distinct = distinct op-line sequences. Monitor level: one REAL monitor with a namespace.labelSelector binding on the fake cluster; EnableKubeEventCb is interleaved at its yield points with namespace-added callbacks triggered by creating namespaces; afterwards an object is created in every namespace and must reach the event callback. Operator level (exploration, uncontrolled scheduling): a whole ShellOperator on the fake cluster with one real bash hook (group / queue / jqFilter / event-type / failing-Synchronization variants); the cluster changes before start, while each Synchronization attempt is running and afterwards; oracles on the binding-context files the hook received."
+	r.Rule = "one REAL resourceInformer per case, driven through the verifsched yield points: the harness plays the callback thread (W1 cache section, W2 hand-over), snapshot readers tagged sync/foreign (S1 copy, S2 reset) and the unlock E in a generated interleaving, plus probes that try a step the model says is blocked by eventBufLock (unlock or hand-over while a reader is between copy and reset; unlock in the middle of the hand-over). Watch histories over <=3 objects (create, modify with changed/identical projection, delete, re-create, re-delivered Added), event-type subsets, jqFilter on/off, keepFullObjectsInMemory on/off. Non-trivial: >=2 watch events fire and the schedule interleaves a reader or the unlock between two watch steps. distinct = distinct op-line sequences. Monitor level: one REAL monitor with a namespace.labelSelector binding on the fake cluster; EnableKubeEventCb is interleaved at its yield points with namespace-added callbacks triggered by creating namespaces; afterwards an object is created in every namespace and must reach the event callback. Operator level (exploration, uncontrolled scheduling): a whole ShellOperator on the fake cluster with one real bash hook (group / queue / jqFilter / event-type / failing-Synchronization variants); the cluster changes before start, while each Synchronization attempt is running and afterwards; oracles on the binding-context files the hook received. Operator, window inside the Synchronization run: the run is parked at a yield point of monitor.Snapshot() (before / after each read it makes), the cluster changes there; sweep group x empty/non-empty view x yield point, quiet cases without a later sentinel object. Operator, layouts: 2-5 kubernetes bindings of one hook in blocks (two bindings of one group, or one binding; allowFailure / executeHookOnSynchronization per block, queue per binding); every hook execution is held, the lock state of every binding is observed while it is held and the cluster changes; per binding: unlocked only after its own successful Synchronization, no Event before it, view + Events = cluster."
 	all := []string{"a", "m", "d"}
 	// corpus: the proved witness schedules (Props/C01.lean), adapted to the repaired step alphabet
 	r.One(0, func(c *Case, rng *Rng) {
@@ -772,7 +805,9 @@ func runC01(r *Run) {
 	})
 	runC01Monitor(r)
 	runC01Operator(r)
+	runC01OperatorWindow(r)
 	runC01Operator2(r)
+	runC01Operator3(r)
 	// the recorded finding class, explored separately (expected to fail the oracle)
 	r.Cases(900000, r.N(20, 200), 0, func(c *Case, rng *Rng) {
 		watch := c01GenWatch(rng, rng.Range(1, 5))
